@@ -9,7 +9,9 @@ for k in sorted(os.listdir(src)):
     d = os.path.join(src, k)
     if not (os.path.isdir(d) and os.path.exists(os.path.join(d, 'patch.diff'))):
         continue
-    dst = os.path.join(V, 'seeded', f'{pid}-{k}')
+    off = int(os.environ.get('SEED_OFFSET', '0'))
+    kk = f'm{int(k[1:]) + off}' if off else k
+    dst = os.path.join(V, 'seeded', f'{pid}-{kk}')
     os.makedirs(dst, exist_ok=True)
     for f in ('patch.diff', 'demo.py', 'notes.txt'):
         if os.path.exists(os.path.join(d, f)):
@@ -33,7 +35,7 @@ for k in sorted(os.listdir(src)):
     }
     json.dump(meta, open(os.path.join(dst, 'meta.json'), 'w'), indent=1)
     ok = res.get('baseline', '').startswith('160/') and res.get('demo_without') == 0 and res.get('demo_with') == 1
-    print(f'{pid}-{k}: valid={ok} baseline={res.get("baseline")} demo {res.get("demo_without")}->{res.get("demo_with")} caught_by={caught}')
+    print(f'{pid}-{kk}: valid={ok} baseline={res.get("baseline")} demo {res.get("demo_without")}->{res.get("demo_with")} caught_by={caught}')
     for c, r in res['checks'].items():
         for w in r['violations'][:3]:
             print('     ', c, '->', w[:200])
